@@ -282,7 +282,7 @@ pub fn laws_property(vals: &[RefValue; 3]) -> Result<(bool, Vec<&'static str>), 
 }
 
 fn arb_triple() -> BoxedStrategy<[RefValue; 3]> {
-	(gen::arb_value(gen::ValueCfg::MEDIUM), any::<u16>(), any::<u8>(), any::<u16>(), any::<u8>(), 0u8..6)
+	(gen::arb_doc_value(gen::ValueCfg::MEDIUM), any::<u16>(), any::<u8>(), any::<u16>(), any::<u8>(), 0u8..6)
 		.prop_map(|(a, s1, k1, s2, k2, shape)| {
 			let b = near_copy(&a, s1, k1);
 			let c = near_copy(&a, s2, k2);
@@ -299,7 +299,7 @@ fn arb_triple() -> BoxedStrategy<[RefValue; 3]> {
 }
 
 fn arb_entries() -> BoxedStrategy<Vec<(String, RefValue)>> {
-	proptest::collection::vec((gen::arb_key(true), gen::arb_value(gen::ValueCfg::SMALL)), 0..14).boxed()
+	prop_oneof![6 => proptest::collection::vec((gen::arb_key(true), gen::arb_value(gen::ValueCfg::SMALL)), 0..14), 1 => proptest::collection::vec((gen::arb_long_key(), gen::arb_leaf(false)), 14..80)].boxed()
 }
 
 pub fn run(ctx: &mut Ctx) {
